@@ -274,6 +274,12 @@ func cellFromCellBlock(b []byte) (*pb.Cell, uint32, error) {
 }
 
 func deserializeCellBlocks(b []byte, cellsLen uint32) ([]*pb.Cell, uint32, error) {
+	if uint64(cellsLen) > uint64(len(b)) {
+		// every cell takes more than one byte: don't allocate for a count
+		// that the data cannot possibly hold
+		return nil, 0, fmt.Errorf(
+			"buffer is too small: expected %d cells, got %d bytes", cellsLen, len(b))
+	}
 	cells := make([]*pb.Cell, cellsLen)
 	var readLen uint32
 	for i := 0; i < int(cellsLen); i++ {
